@@ -179,22 +179,70 @@ for name, f in DYA.items():
     out.append('//@   ensures lift2_post_$R(c, a, b, %s, %s, %s, %s, %s, %s)' % (o(f), o(d['v10']), o(d['v01']), o(d['v11']), o(d['v20']), o(d['v02'])))
     out.append('//@   modifies $R.Value@{c}, $R.N@{c}, $R.Order@{c}, $R.Derivative@{c}, $R.Hessian@{c}, []$F@{q :: owns_$R(c, q)}')
     out.append('')
-# composite operations built from the primitives (static calls on the receiver only)
-sig = 1 / (1 + ex_(-x))
-COMP = {'Logistic': sig}
-for name, f in COMP.items():
-    f1 = sp.diff(f, x); f2 = sp.diff(f1, x)
-    XO = 'old(val(a))'
-    def insto(e):
-        return re.sub(r'\bx\b', XO, pr(sp.simplify(e)))
-    out.append('//@ func (*$R).%s' % name)
-    out.append('//@   requires RI_$R(c) && RIc(a) && sep_$R(c, a)')
-    out.append('//@   ensures isa(*$R, result) && as(*$R, result) == c')
-    out.append('//@   ensures lift1_post_$R(c, a, %s, %s, %s)' % (insto(f), insto(f1), insto(f2)))
-    out.append('//@   modifies $R.Value@{c}, $R.N@{c}, $R.Order@{c}, $R.Derivative@{c}, $R.Hessian@{c}, []$F@{q :: owns_$R(c, q)}')
-    out.append('')
 out.append('//@ end')
 out.append('')
+
+# --- composite operations: jet-level check (engine/jet.go) -------------------------------------------
+sig = 1 / (1 + ex_(-x))
+COMP1 = {            # name -> (spec, domain requires, alias patterns, extra scalar params are temporaries)
+    'Logistic': (sig, None),
+    'Sigmoid':  (sig, None),
+    'Sqrt':     (sp.sqrt(x), 'x > 0'),
+}
+COMP2 = {
+    'LogAdd':   (log_(ex_(x) + ex_(y)), None),
+    'LogSub':   (log_(ex_(x) - ex_(y)), 'x > y'),
+}
+def jetblock(name, f, req, two):
+    out.append('//@ func (*$R).%s' % name)
+    out.append('//@   jetspec %s' % pr(f))
+    if req:
+        out.append('//@   jetrequires %s' % req)
+    vs = ['x', 'y'] if two else ['x']
+    syms = {'x': x, 'y': y}
+    for v in vs:
+        out.append('//@   jetd @d%s %s' % (v, pr(sp.diff(f, syms[v]))))
+    for i, v in enumerate(vs):
+        for w in vs[i:]:
+            out.append('//@   jetd @d%s%s %s' % (v, w, pr(sp.diff(f, syms[v], syms[w]))))
+    out.append('//@   jetalias c=a')
+    if two:
+        out.append('//@   jetalias c=b')
+        out.append('//@   jetalias c=a=b')
+    out.append('')
+out.append('// composite operations (jet-level symbolic execution over the proved primitives)')
+out.append('//@ for $R,$T in (Real64,@), (Real32,+)')
+out.append('//@ propsdefault C01$T C02$T C08$T')
+for name, (f, req) in COMP1.items():
+    jetblock(name, f, req, False)
+for name, (f, req) in COMP2.items():
+    jetblock(name, f, req, True)
+out.append('//@ end')
+out.append('')
+
+# ops.json: coefficient triples of the primitives (and summaries of verified composites) for the jet evaluator
+import json
+ops = {}
+for name, f in MON.items():
+    ops[name] = {'arity': 1, 'e': {'f': pr(f), 'f1': pr(sp.diff(f, x)), 'f2': pr(sp.diff(f, x, 2))}}
+for name, f in DYA.items():
+    ops[name] = {'arity': 2, 'e': {'f': pr(f), 'fx': pr(sp.diff(f, x)), 'fy': pr(sp.diff(f, y)), 'fxx': pr(sp.diff(f, x, 2)), 'fxy': pr(sp.diff(f, x, y)), 'fyy': pr(sp.diff(f, y, 2))}}
+powf = sp.Function('pow')
+class powuf(sp.Function):
+    nargs = 2
+    def fdiff(self, argindex=1):
+        b, e = self.args
+        if argindex == 1:
+            return e * powuf(b, e - 1)
+        return powuf(b, e) * log_(b)
+powuf.__name__ = 'pow'
+fpow = powuf(x, y)
+ops['Pow'] = {'arity': 2, 'assumed': True, 'e': {'f': pr(fpow), 'fx': pr(sp.diff(fpow, x)), 'fy': pr(sp.diff(fpow, y)), 'fxx': pr(sp.diff(fpow, x, 2)), 'fxy': pr(sp.diff(fpow, x, y)), 'fyy': pr(sp.diff(fpow, y, 2))}}
+for name, (f, req) in COMP1.items():
+    ops[name] = {'arity': 1, 'composite': True, 'e': {'f': pr(f), 'f1': pr(sp.diff(f, x)), 'f2': pr(sp.diff(f, x, 2))}}
+for name, (f, req) in COMP2.items():
+    ops[name] = {'arity': 2, 'composite': True, 'e': {'f': pr(f), 'fx': pr(sp.diff(f, x)), 'fy': pr(sp.diff(f, y)), 'fxx': pr(sp.diff(f, x, 2)), 'fxy': pr(sp.diff(f, x, y)), 'fyy': pr(sp.diff(f, y, 2))}}
+json.dump(ops, open('/verif/spec/ops.json', 'w'), indent=1, sort_keys=True)
 
 # --- refinement of the interface model functions by every covered implementation --------------
 out.append('// ---------------------------------------------------------------------------')
